@@ -963,11 +963,22 @@ theorem gen_table_localStatus (s : State) (c : Nat) (p : PinSpec) (hc : s.cur c 
     T.localT Gen.Sem.localBody k b false fm = some none ∧ T.localT Gen.Sem.localBody k b true (fun _ => false) = some none :=
   ⟨T.localT_eq s c p hc hs, (T.localT_skips k b fm hk).1, (T.localT_skips k b fm hk).2⟩
 
+/-- `statusAll(ctx, TrackerStatusUndefined)` — what `RecoverAll` walks: `localStatus` (extras included), THEN the operation table laid over it, THEN the
+    filter; a failed `localStatus` lists nothing. Per cid that is the model's `listingR` (= `statusAllOf` when the daemon's reads work), on every state. -/
+theorem gen_table_statusAll (s : State) (ls : Bool) (c : Nat) :
+    T.statusAllT Gen.Sem.statusAll Gen.Sem.statusAllOverlay Gen.Sem.statusAllFilter s ls (fun _ => true) c = some (listingR s ls c) :=
+  T.statusAllT_eq s ls c
+
 theorem gen_table_known_c :
     (T.known Gen.Sem.enqueue && T.known Gen.Sem.track && T.known Gen.Sem.untrack && T.known Gen.Sem.recover &&
      T.known Gen.Sem.status && T.known Gen.Sem.addError && T.known Gen.Sem.recoverAll && T.known Gen.Sem.recoverAllBody &&
-     T.known Gen.Sem.localBody) = true :=
+     T.known Gen.Sem.localBody && T.known Gen.Sem.statusAll && T.known Gen.Sem.statusAllOverlay && T.known Gen.Sem.statusAllFilter) = true :=
   T.tables_known_c
+
+example : T.statusAllT Gen.Sem.statusAll Gen.Sem.statusAllOverlay Gen.Sem.statusAllFilter k06Run true (fun _ => true) 0
+    = some (some .unexpectedlyUnpinned) := by decide
+example : T.statusAllT Gen.Sem.statusAll Gen.Sem.statusAllOverlay Gen.Sem.statusAllFilter k06Run true (fun st => st == .pinned) 0
+    = some none := by decide
 
 example : T.localT Gen.Sem.localBody .here false true (fun _ => true) = some (some .unexpectedlyUnpinned) := by decide
 
